@@ -94,8 +94,108 @@ def module_state_writes(model: Model, mod: Mod):
                             out.append((q, st, f"{src(tt)} (module-level object {g})"))
             if isinstance(st, ast.Call) and isinstance(st.func, ast.Attribute) and st.func.attr in MUTATORS:
                 g = base_global(st.func.value)
-                if g:
+                if g and not is_module_path(model, mod, st.func.value):
                     out.append((q, st, f"{src(st.func)}() on module-level object {g}"))
+    return out
+
+
+def is_module_path(model: Model, mod: Mod, n) -> bool:
+    """`numpy`, `numpy.linalg`, `cij.util`: a dotted path that names a module (its attribute calls such as numpy.add(...) or
+    numpy.put(...) are library functions, not methods of a shared container)"""
+    parts = []
+    while isinstance(n, ast.Attribute):
+        parts.append(n.attr)
+        n = n.value
+    if not isinstance(n, ast.Name) or n.id not in mod.imports:
+        return False
+    entry = mod.imports[n.id]
+    if entry[0] == "mod":
+        if not parts:
+            return True
+        kind, _ = model.resolve_import(entry)
+        return kind in ("module", "ext") and all(p.islower() or "_" in p for p in parts) and not parts[0][0].isupper() and _is_pkg_path(entry[1], parts[::-1])
+    kind, ref = model.resolve_import(entry)
+    return kind == "module" and not parts
+
+
+def _is_pkg_path(root: str, parts) -> bool:
+    """root.parts[0]....: True when it is a package/module on disk (located without importing anything)"""
+    import importlib.machinery
+    import sys
+    from pathlib import Path
+    cur = None
+    for base in sys.path:
+        cand = Path(base or ".") / root.replace(".", "/")
+        if cand.is_dir() or cand.with_suffix(".py").is_file():
+            cur = cand
+            break
+    if cur is None:
+        return root in sys.builtin_module_names or root in getattr(sys, "stdlib_module_names", ())
+    for p in parts:
+        nxt = cur / p
+        if nxt.is_dir() or nxt.with_suffix(".py").is_file() or any(nxt.with_suffix(sfx).is_file() for sfx in importlib.machinery.EXTENSION_SUFFIXES):
+            cur = nxt
+        else:
+            return False
+    return True
+
+
+def shared_object_uses(f, name: str):
+    """classify every use of the (imported or module-level) mutable `name` inside function f.
+    -> list of (node, kind) with kind in {'copied', 'read', 'mutated', 'escapes'}; one level of local aliasing is followed."""
+    parents = {}
+    for p in ast.walk(f):
+        for c in ast.iter_child_nodes(p):
+            parents[id(c)] = p
+    READ_METHODS = {"get", "items", "keys", "values", "copy", "__getitem__", "__contains__", "__len__", "__iter__"}
+    COPIERS = {"copy.copy", "copy.deepcopy", "dict", "collections.OrderedDict", "OrderedDict", "collections.ChainMap", "list", "tuple", "set", "frozenset",
+               "types.MappingProxyType", "MappingProxyType", "json.dumps", "len", "sorted", "str", "repr"}
+    out = []
+    names = {name}
+    # aliases  x = NAME
+    for st in ast.walk(f):
+        if isinstance(st, ast.Assign) and len(st.targets) == 1 and isinstance(st.targets[0], ast.Name):
+            v = st.value
+            if (isinstance(v, ast.Name) and v.id == name) or (isinstance(v, ast.Attribute) and v.attr == name):
+                names.add(st.targets[0].id)
+
+    def is_use(n):
+        return (isinstance(n, ast.Name) and n.id in names and isinstance(n.ctx, ast.Load)) or \
+               (isinstance(n, ast.Attribute) and n.attr == name and isinstance(n.ctx, ast.Load))
+
+    for n in ast.walk(f):
+        if not is_use(n):
+            continue
+        if isinstance(n, ast.Name) and isinstance(parents.get(id(n)), ast.Attribute) and parents[id(n)].attr == name and False:
+            continue
+        par = parents.get(id(n))
+        kind = "escapes"
+        if isinstance(par, ast.Assign) and par.value is n and len(par.targets) == 1 and isinstance(par.targets[0], ast.Name):
+            kind = "read"                                   # plain alias: the alias's own uses are classified
+        elif isinstance(par, ast.Call) and n in par.args and (dotted_name(par.func) or "") in COPIERS:
+            kind = "copied"
+        elif isinstance(par, ast.Dict) and n in par.values and par.keys[par.values.index(n)] is None:
+            kind = "copied"                                 # {**NAME, ...}
+        elif isinstance(par, ast.keyword) and par.arg is None and isinstance(parents.get(id(par)), ast.Call) \
+                and (dotted_name(parents[id(par)].func) or "") in COPIERS:
+            kind = "copied"                                 # dict(**NAME)
+        elif isinstance(par, ast.BinOp) and isinstance(par.op, ast.BitOr):
+            kind = "copied"                                 # NAME | other  (new dict)
+        elif isinstance(par, ast.Attribute) and par.value is n:
+            gp = parents.get(id(par))
+            if isinstance(gp, ast.Call) and gp.func is par:
+                kind = "copied" if par.attr == "copy" else ("read" if par.attr in READ_METHODS else ("mutated" if par.attr in MUTATORS else "escapes"))
+            else:
+                kind = "read"
+        elif isinstance(par, ast.Subscript) and par.value is n:
+            kind = "read" if isinstance(par.ctx, ast.Load) else "mutated"
+        elif isinstance(par, (ast.Compare, ast.For, ast.comprehension)):
+            kind = "read"
+        elif isinstance(par, ast.Starred):
+            kind = "read"
+        elif isinstance(par, ast.AugAssign) and par.target is n:
+            kind = "mutated"
+        out.append((n, kind))
     return out
 
 
@@ -138,7 +238,7 @@ def class_state_writes(mod: Mod):
     return out
 
 
-def mutated_params(f, summaries=None) -> set:
+def mutated_params(f, summaries=None, configures=None) -> set:
     """parameters mutated in place by f (flow-sensitive for rebinding to a fresh value first)"""
     params = [a.arg for a in f.args.posonlyargs + f.args.args + f.args.kwonlyargs]
     live = set(params) - {"self", "cls"}
@@ -178,6 +278,12 @@ def mutated_params(f, summaries=None) -> set:
                             while isinstance(root, (ast.Subscript, ast.Attribute)):
                                 root = root.value
                             if isinstance(root, ast.Name) and root.id in live:
+                                # `param.attr = value` re-points an attribute of the caller's object (what the caller could
+                                # do inline); every other store changes a value in place
+                                if isinstance(tt, ast.Attribute) and isinstance(tt.value, ast.Name):
+                                    attr_only.setdefault(root.id, True)
+                                else:
+                                    attr_only[root.id] = False
                                 out.add(root.id)
                 check_expr(st.value, live)
                 continue
@@ -206,8 +312,38 @@ def mutated_params(f, summaries=None) -> set:
                         if pos < len(c.args) and isinstance(c.args[pos], ast.Name) and c.args[pos].id in live:
                             out.add(c.args[pos].id)
 
+    attr_only = {}
     visit_block(f.body, live)
+    if configures is not None:
+        configures.update({p for p in out if attr_only.get(p) is True and not _other_mutation(f, p)})
     return out
+
+
+def _other_mutation(f, p) -> bool:
+    """parameter p is also changed by something other than `p.attr = value` (augmented store, item store, mutator call)"""
+    for st in ast.walk(f):
+        if isinstance(st, ast.AugAssign):
+            root = st.target
+            while isinstance(root, (ast.Subscript, ast.Attribute)):
+                root = root.value
+            if isinstance(root, ast.Name) and root.id == p:
+                return True
+        if isinstance(st, ast.Call) and isinstance(st.func, ast.Attribute) and st.func.attr in MUTATORS:
+            root = st.func.value
+            while isinstance(root, (ast.Subscript, ast.Attribute)):
+                root = root.value
+            if isinstance(root, ast.Name) and root.id == p:
+                return True
+        if isinstance(st, ast.Assign):
+            for t in st.targets:
+                for tt in (t.elts if isinstance(t, (ast.Tuple, ast.List)) else [t]):
+                    if isinstance(tt, ast.Subscript) or (isinstance(tt, ast.Attribute) and not isinstance(tt.value, ast.Name)):
+                        root = tt
+                        while isinstance(root, (ast.Subscript, ast.Attribute)):
+                            root = root.value
+                        if isinstance(root, ast.Name) and root.id == p:
+                            return True
+    return False
 
 
 def unordered_loops(mod: Mod):
